@@ -7,7 +7,8 @@ from vp import rt
 
 from tdda.serial.csvw import CSVWMetadata, csvw_date_format_to_md_date_format as tr
 from tdda.serial.pandasio import to_pandas_read_csv_args
-from tdda.serial.base import RE_ISO8601
+# the reference definition of an ISO-8601 parsing format, written independently of tdda.serial.base.RE_ISO8601
+REF_ISO8601 = r'^%Y-%m-%d([T ]%H:%M:%S(\.%f)?)?$'
 
 P = rt.param({})
 TOK = ['d', 'dd', 'M', 'MM', 'yy', 'yyyy', 'HH', 'mm', 'ss', 'S', 'SS', 'SSS']
@@ -50,7 +51,7 @@ def k1_format(toks: List[int], seps: List[int]) -> bool:
             f += SEP[seps[i]]
             e += SEP[seps[i]]
     out = tr(f)
-    if re.match(RE_ISO8601, e):
+    if re.match(REF_ISO8601, e):
         return out == 'ISO8601'
     return out == e
 
@@ -92,6 +93,41 @@ def lift_format(toks, seps):
     finally:
         import shutil
         shutil.rmtree(d, ignore_errors=True)
+
+
+FSEPS = ['.', ':', '-', ' ', '/', 'T', '']
+FTOKS = ['S', 'SS', 'SSS']
+TSEPS = ['T', ' ', '-', '']
+
+
+def k1_iso_shapes(tsep: int, fsep: int, ftok: int, has_time: bool, has_frac: bool) -> bool:
+    """
+    pre: 0 <= tsep < len(TSEPS) and 0 <= fsep < len(FSEPS) and 0 <= ftok < len(FTOKS)
+    post: __return__
+    """
+    for k in range(len(TSEPS)):
+        if tsep == k:
+            tsep = k
+            break
+    for k in range(len(FSEPS)):
+        if fsep == k:
+            fsep = k
+            break
+    for k in range(len(FTOKS)):
+        if ftok == k:
+            ftok = k
+            break
+    f = 'yyyy-MM-dd'
+    e = '%Y-%m-%d'
+    if has_time:
+        f += TSEPS[tsep] + 'HH:mm:ss'
+        e += TSEPS[tsep] + '%H:%M:%S'
+        if has_frac:
+            f += FSEPS[fsep] + FTOKS[ftok]
+            e += FSEPS[fsep] + '%f'
+    out = tr(f)
+    iso = (not has_time) or (TSEPS[tsep] in ('T', ' ') and ((not has_frac) or FSEPS[fsep] == '.'))
+    return out == ('ISO8601' if iso else e)
 
 
 # ---- K2: metadata -> read_csv arguments -------------------------------------------------------------
@@ -230,6 +266,10 @@ def _obs():
                       % (ntok, SEP[:nsep] if nsep < 7 else (SEP[:6] + ['<none>'])),
                       param={'ntok': ntok, 'nsep': nsep}, timeout=to, tier=tier, lift='lift_format',
                       known=['C16.month-next-to-minute'] if (nsep == 7 and ntok >= 2) else []))
+    obs.append(Ob('K1', 'k1_iso_shapes', 'ISO-shaped formats yyyy-MM-dd[<sep>HH:mm:ss[<sep>S..SSS]]: the translation is '
+                  'ISO8601 exactly when the time separator is T or space and the fraction separator is a dot; otherwise '
+                  'the explicit parsing format', '%d time separators x %d fraction separators x 3 fraction tokens x '
+                  'with/without time and fraction' % (len(TSEPS), len(FSEPS)), timeout=300))
     for mode, bound in (('types', '2 columns; datatypes by symbolic index over %d CSVW type names (incl. unknown) x '
                          'date format over %d menu entries in both spellings; default dialect' % (len(TYPES), len(DFMT))),
                         ('dialect', 'integer+string columns; delimiter 5 x encoding 4 x header {absent,true,false} x '
